@@ -56,6 +56,15 @@ def replay(chk, exe, hists, c, *, ticks=(1000,), backends=("epoll",), label="", 
             scen = [{"cfg": dc, "h": h} for h in hists]
             outs = vkit.run_driver(exe, scen)
             fails = vkit.compare_histories(hists, outs)
+            if chk.pid == "C10":
+                # resource balance (C10, last sentence): once the events are released and the base is freed, no block
+                # from the library's allocator and no descriptor remains (judged unless an allocation fault fired)
+                for i, o in enumerate(outs):
+                    lk = (o or {}).get("leak") if isinstance(o, dict) else None
+                    if lk and lk.get("judged") and (lk.get("m") or lk.get("fd")):
+                        fails.append((i, len(hists[i]) - 1, "after releasing every event and freeing the base %d allocator block(s) and "
+                                      "%d descriptor(s) of the library remain" % (lk.get("m", 0), lk.get("fd", 0))))
+                    chk.cov["leak_judged"] = chk.cov.get("leak_judged", 0) + (1 if lk and lk.get("judged") else 0)
             total += len(hists)
             chk.cov["traces_validated_against_impl"] += len(hists)
             for (i, k, msg) in fails[:limit_fail]:
